@@ -158,6 +158,8 @@ structure LData (P : Program) (s : St) : Prop where
   swSel  : ∀ S lc, s.sw S = some lc → switchSelect P s S = some lc
   /-- a result belongs to a processed node -/
   c6     : ∀ n, (s.res n).isSome = true → s.proc n = true
+  /-- only ordinary nodes are ever marked as processed -/
+  procPlain : ∀ n, s.proc n = true → P.g.isSwitch n = false
   /-- a node is executed by one task -/
   uniq   : ∀ (i j : Nat) (ti tj : Task) (q : Node) (d1 d2 : DagRef) (f1 f2 : Bool) (p1 p2 : NodePc),
     s.tasks[i]? = some ti → s.tasks[j]? = some tj → ti.frames = [.node d1 q f1 p1] → tj.frames = [.node d2 q f2 p2] →
@@ -178,6 +180,16 @@ structure LiveP (P : Program) (depth : Node → Nat) : Prop where
   acyclic  : ∀ e ∈ P.g.edges, depth e.u < depth e.v
   outPlain : P.g.isSwitch P.g.output = false
   noYield  : ∀ cb n, P.cbYield cb n = 0
+  /-- no candidate edges, case labels only on edges into switch nodes, from ordinary nodes -/
+  noCands  : ∀ e ∈ P.g.edges, (P.g.attr e.v).oneofNodes.contains e.u = false
+  caseSw   : ∀ e ∈ P.g.edges, P.g.isSwitch e.v = false → e.case = none
+  decNoCase : ∀ e ∈ P.g.edges, e.isSwitch = true → e.case = none
+  casePlain : ∀ e ∈ P.g.edges, e.case.isSome = true → P.g.isSwitch e.u = false
+  /-- the reduced DAGs the engine builds — up to the output, up to a case node — end in their destination, are closed
+  under dependencies, and contain only nodes at most as deep as the destination -/
+  dagsOK   : ∀ (s : St) (dst : Node) (d : DagRef), reducedRef P s P.g.input dst false false false = some d →
+    (dst = P.g.output ∨ ∃ e ∈ P.g.edges, e.u = dst ∧ e.case.isSome = true) →
+    d.dest = some dst ∧ dst ∈ d.nodes ∧ (∀ m ∈ d.nodes, ∀ u ∈ basePreds P m, u ∈ d.nodes) ∧ ∀ x ∈ d.nodes, depth x ≤ depth dst
 
 /-! ### the static part: a state that satisfies `Struct` is not stuck -/
 
